@@ -207,7 +207,7 @@ def run(check, ctx):
     c_md.md_tables(check, ctx)
     # the compression functions and Keccak-p themselves, concretely, against an independent implementation
     from . import c_digest
-    c_digest.digest_tables(check, ctx)
+    c_digest.digest_tables(check, ctx, groups=("md", "keccak", "blake2", "blake2-counter"))
     # requests of 4 GiB or more: no 32-bit counter or truncation meets the caller's length in the native update paths
     from .. import crules
     nfun = crules.streaming_length_rule(check, ctx.cdb, rule="M", only_tus=('MD2.c', 'MD4.c', 'MD5.c', 'RIPEMD160.c', 'SHA1.c', 'SHA224.c', 'SHA256.c', 'SHA384.c', 'SHA512.c', 'blake2b.c', 'blake2s.c', 'keccak.c', 'poly1305.c'))
